@@ -136,16 +136,16 @@ theorem finish_ok_parsed {b : Builder} {len : Nat} {m : Mode} {p : Parsed}
     · unfold Builder.unclosed at h; split at h <;> cases h
 
 theorem build_total_top {m : Mode} {len : Nat} {env : Env} {ts : List Token} {lexErr : Option Nat} {p : Parsed}
-    (htags : TagsOk false ts) (hclose : NoStrayClose 0 ts) (h : build m len env ts lexErr = .ok p) :
+    (htags : TagsOk false ts) (h : build m len env ts lexErr = .ok p) :
     FwdSpans p.spans 0 p.tree.kids := by
   unfold build at h
-  have hr := run_np lexErr ts (Builder.new env) false 0 (builderOk_new env) (noPanicInv_new env) htags hclose
+  have hr := run_np lexErr ts (Builder.new env) false (builderOk_new env) (noPanicInv_new env) htags
   cases hb : (Builder.new env).run ts lexErr with
   | panic => rw [hb] at h; cases h
   | err e env' => rw [hb] at h; cases h
   | ok b =>
     rw [hb] at hr h
-    obtain ⟨inTag, d, hinv⟩ := hr
+    obtain ⟨inTag, hinv⟩ := hr
     have hok := run_ok ts lexErr (builderOk_new env) hb
     obtain ⟨hdoc, hp⟩ := finish_ok_parsed (b := b) (len := len) (m := m) (p := p) (by cases m <;> exact h)
     subst hp
@@ -153,7 +153,7 @@ theorem build_total_top {m : Mode} {len : Nat} {env : Env} {ts : List Token} {le
       cases hq : b.parents with
       | nil => rfl
       | cons q rest =>
-        have hs := hok.2.2
+        have hs := hok.2.2.1
         rw [hq] at hs
         simp only [ShapeOk] at hs
         have := hs.1
